@@ -222,20 +222,30 @@ Theorem C38_timer_refines : forall s x,
 Proof. exact texpand_run. Qed.
 Print Assumptions C38_timer_refines.
 
-(* Known finding K38a: under the reading "the TIMER event occurs when the period runs out", the clause
-   "an occurrence while OFF is lost" is REFUTED for TIMER in the current code: TimerHandler.start is
-   advanced only by polls made while ON/STOPped, so a period that ran out while TIMER was OFF is noticed by
-   the first poll after TIMER ON and the handler is entered, although nothing elapsed while ON.
-   (Same root: TIMER ON before ON TIMER(n) GOSUB - the fresh handler has period 0 - enters the handler as
-   soon as the GOSUB is defined.) *)
-Example C38_timer_elapse_while_off_refuted :
+(* D38a (fixed defect): an interval that runs out while TIMER is OFF is lost: TIMER ON coming from OFF
+   restarts the interval, so the next poll finds nothing; and nothing is found before ON TIMER(n) GOSUB
+   has defined the interval.  (Before the fix the first poll after TIMER ON triggered.) *)
+Theorem C38_timer_off_lost : forall x, enabled (ev (core x) Timer) = false ->
+  poll_hits (tnext x (Core (On Timer))) = false.
+Proof. exact timer_on_from_off. Qed.
+Print Assumptions C38_timer_off_lost.
+
+Theorem C38_timer_needs_period : forall x, period_set x = false -> poll_hits x = false.
+Proof. exact timer_needs_period. Qed.
+Print Assumptions C38_timer_needs_period.
+
+(* the same for PLAY: a drop of the music queue below n that happened while PLAY was OFF is lost *)
+Theorem C38_play_off_lost : forall x, enabled (ev (core x) Play) = false ->
+  play_hits (tnext x (Core (On Play))) = false.
+Proof. exact play_on_from_off. Qed.
+Print Assumptions C38_play_off_lost.
+
+Example C38_timer_elapse_while_off_lost :
   let pt := [Core Install; Poll; Core (Boundary [Timer])] in
-  ttrace tinit ([Core (OnGosub Timer (Some 3000%Z)); Core Start] ++ pt ++
-                [Elapse] ++ pt ++            (* TIMER is OFF: nothing happens now ... *)
-                [Core (On Timer)] ++ pt)     (* ... but it is not lost *)
-  = [[]; []; []; []; []; []; []; []; []; []; []; []; [Timer]] /\
-  ttrace tinit ([Core Start; Core (On Timer)] ++ pt ++ [Core (OnGosub Timer (Some 3000%Z))] ++ pt)
-  = [[]; []; []; []; []; []; []; []; [Timer]].
+  concat (ttrace tinit ([Core (OnGosub Timer (Some 3000%Z)); Core Start] ++ pt ++
+                [Elapse] ++ pt ++ [Core (On Timer)] ++ pt ++ pt)) = [] /\
+  concat (ttrace tinit ([Core Start; Core (On Timer)] ++ pt ++ [Core (OnGosub Timer (Some 3000%Z))] ++ pt))
+  = [].
 Proof. vm_compute. split; reflexivity. Qed.
 
 (* the positive counterpart: a period that runs out while TIMER is ON or STOPped is handled, once *)
@@ -246,4 +256,65 @@ Example C38_timer_nonvacuous :
                 [Core (On Timer)] ++ pt ++ pt)
   = [[]; []; []; []; []; []; []; []; []; [Timer]; []; []; []; []; []; []; []; []; []; []; []; []; [Timer];
      []; []; []].
+Proof. vm_compute. reflexivity. Qed.
+
+(* ------------------------------------------------------------------------------------------------ *)
+(* CLEAR / NEW / RENUM / RUN (= CHAIN) while handler frames are live: all theorems above already quantify
+   over these actions (is_reset = RUN, CLEAR, NEW: new handler objects).  What they do, by computation: *)
+
+(* RENUM inside a handler drops the GOSUB stack and stops the program; the trap stays stopped (no RETURN
+   can un-stop it any more) until ON; a pending occurrence is kept and handled after ON *)
+Example C38_renum_in_handler :
+  let st := run init (setup ++ [Install; Occur k1; Boundary [k1]; Occur k1; Renum]) in
+  gosub_stack st = [] /\ run_mode st = false /\ stopped (ev st k1) = true /\ trig (ev st k1) = true /\
+  trace st [Start; Install; Boundary [k1]; Install; Boundary [k1]; On k1; Install; Boundary [k1]]
+  = [[]; []; []; []; []; []; []; [k1]].
+Proof. vm_compute. repeat split. Qed.
+
+(* CLEAR inside a handler: traps, handler lines, error trapping and the GOSUB stack are gone, the program
+   keeps running; a later RETURN is an error; the trap has to be defined and switched on again *)
+Example C38_clear_in_handler :
+  let st := run init (setup ++ [Install; Occur k1; Boundary [k1]; Occur k2; Clear]) in
+  gosub_stack st = [] /\ run_mode st = true /\ enabled (ev st k1) = false /\ trig (ev st k2) = false /\
+  on_error st = false /\
+  trace st [Install; Occur k1; Boundary [k1; k2]; On k1; Install; Occur k1; Boundary [k1];
+            OnGosub k1 (Some 1000%Z); Install; Boundary [k1]]
+  = [[]; []; []; []; []; []; []; []; []; [k1]] /\
+  run_mode (run st [Return]) = false.
+Proof. vm_compute. repeat split. Qed.
+
+(* NEW and RUN/CHAIN: nothing survives; END keeps frames and flags (RETURN from direct mode resumes) *)
+Example C38_new_run_end :
+  let st := run init (setup ++ [Install; Occur k1; Boundary [k1]; Occur k1]) in
+  enc_state (next st New) = enc_state init /\
+  gosub_stack (next st RunClear) = [] /\ trig (ev (next st RunClear) k1) = false /\
+  trace st [EndProgram; Install; Boundary [k1]; Idle; Return; Install; Boundary [k1]]
+  = [[]; []; []; []; []; []; [k1]].
+Proof. vm_compute. repeat split. Qed.
+
+(* PLAY: the event is "the number of notes waiting drops below n"; PlayHandler.last is refreshed only by
+   polls made while PLAY is ON/STOPped.  Positive: a drop while ON is handled once. *)
+Example C38_play_nonvacuous :
+  let pt := [Core Install; Poll; Core (Boundary [Play])] in
+  ttrace tinit ([PlayTrig 2; Core (OnGosub Play (Some 5000%Z)); Core (On Play); Core Start; PlayQ 3] ++ pt ++
+                [PlayQ 1] ++ pt ++ [Core Return] ++ pt ++ [PlayQ 0] ++ pt)
+  = [[]; []; []; []; []; []; []; []; []; []; []; [Play]; []; []; []; []; []; []; []; []].
+Proof. vm_compute. reflexivity. Qed.
+
+(* D38a: a drop that happens while PLAY is OFF is lost *)
+Example C38_play_drop_while_off_lost :
+  let pt := [Core Install; Poll; Core (Boundary [Play])] in
+  concat (ttrace tinit ([PlayTrig 2; Core (OnGosub Play (Some 5000%Z)); Core (On Play); Core Start; PlayQ 3]
+                ++ pt ++ [Core (Off Play); PlayQ 0] ++ pt ++ [Core (On Play)] ++ pt ++ pt)) = [].
+Proof. vm_compute. reflexivity. Qed.
+
+(* user-defined keys: a press of an undefined KEY 15..20 is no occurrence; RUN forgets the definition *)
+Example C38_user_key :
+  let k := Key 15 in
+  let pt := [Core Install; Poll; Core (Boundary [k])] in
+  ttrace tinit ([Core (OnGosub k (Some 1500%Z)); Core (On k); Core Start; Core Install; KeyPress k;
+                 Core (Boundary [k]); DefKey k; Core Install; KeyPress k; Core (Boundary [k]); Core Return;
+                 Core RunClear; Core (OnGosub k (Some 1500%Z)); Core (On k); Core Install; KeyPress k;
+                 Core (Boundary [k])])
+  = [[]; []; []; []; []; []; []; []; []; [k]; []; []; []; []; []; []; []].
 Proof. vm_compute. reflexivity. Qed.
